@@ -24,8 +24,8 @@ pub struct WorkerStats {
     pub aborted_other: u64,
     pub inconclusive: u64,
     pub violations: u64,
-    pub nontrivial_keys: Vec<u64>,
-    pub interleavings: Vec<u64>,
+    #[serde(default)]
+    pub key_files: Vec<String>,
     pub faults: BTreeMap<String, u64>,
     pub probes: BTreeMap<String, u64>,
     pub quiescent_points: u64,
@@ -155,8 +155,20 @@ pub fn worker(prop: &dyn Property, tier: Tier, batch_seed: u64, start: u64, step
         }
         i += step;
     }
-    st.nontrivial_keys = keys.into_iter().collect();
-    st.interleavings = inter.into_iter().collect();
+    // key sets go through binary side files (8 bytes per key); the S line carries only the paths
+    let dir = std::env::var("VERIF_TMP").unwrap_or_else(|_| "/tmp".into());
+    let kp = format!("{dir}/resolvo-sim-keys-{}-{}.bin", std::process::id(), start);
+    let ip = format!("{dir}/resolvo-sim-inter-{}-{}.bin", std::process::id(), start);
+    let dump = |path: &str, set: &BTreeSet<u64>| {
+        let mut buf = Vec::with_capacity(set.len() * 8);
+        for k in set {
+            buf.extend_from_slice(&k.to_le_bytes());
+        }
+        let _ = std::fs::write(path, buf);
+    };
+    dump(&kp, &keys);
+    dump(&ip, &inter);
+    st.key_files = vec![kp, ip];
     let mut o = out.lock();
     let _ = writeln!(o, "S {}", serde_json::to_string(&st).unwrap());
     let _ = o.flush();
@@ -270,8 +282,8 @@ pub fn run_check(prop: &dyn Property, tier_s: &str, cfg: &CheckConfig) -> i32 {
     let step = per_profile as u64;
     let mut total = WorkerStats::default();
     let mut per_profile_runs: BTreeMap<String, u64> = BTreeMap::new();
-    let mut keys: BTreeSet<u64> = BTreeSet::new();
-    let mut inter: BTreeSet<u64> = BTreeSet::new();
+    let mut keys: std::collections::HashSet<u64> = Default::default();
+    let mut inter: std::collections::HashSet<u64> = Default::default();
     let mut violations: Vec<(String, ViolationMsg)> = Vec::new();
     let mut hard_crashes: Vec<(String, u64, String)> = Vec::new();
     let mut active = workers.len();
@@ -302,8 +314,15 @@ pub fn run_check(prop: &dyn Property, tier_s: &str, cfg: &CheckConfig) -> i32 {
                 total.quiescent_points += s.quiescent_points;
                 total.virtual_time += s.virtual_time;
                 total.max_in_flight = total.max_in_flight.max(s.max_in_flight);
-                keys.extend(s.nontrivial_keys.iter().copied());
-                inter.extend(s.interleavings.iter().copied());
+                for (fi, path) in s.key_files.iter().enumerate() {
+                    if let Ok(bytes) = std::fs::read(path) {
+                        let target = if fi == 0 { &mut keys } else { &mut inter };
+                        for c in bytes.chunks_exact(8) {
+                            target.insert(u64::from_le_bytes(c.try_into().unwrap()));
+                        }
+                    }
+                    let _ = std::fs::remove_file(path);
+                }
                 for (k, n) in s.faults {
                     *total.faults.entry(k).or_insert(0) += n;
                 }
